@@ -249,4 +249,121 @@ def Oracle.respects (o : Oracle) (quiet : Nat → Bool) : Prop :=
 def noQuiet : Nat → Bool := fun _ => false
 def quietList (l : List Nat) : Nat → Bool := fun s => l.contains s
 
+/-! ### checking every execution of a skeleton against a safety monitor
+
+A `Monitor` watches the visits of an execution (site, height above the caller's depth, raised / taken) through a
+role table and a transition function (`none` = the observation sequence is not allowed).  `post` is the abstract
+interpretation that, from a monitor state and a relative height, returns every (monitor state, height, outcome) an
+execution can end in — or `none` when some execution would make the monitor fail, pop below the caller's frame, or
+when a loop does not close within the fuel.  Soundness (for every term and oracle) is in `Lemmas/SkeletonMonitor.lean`. -/
+
+structure Monitor where
+  role : Nat → Option Nat
+  step : Nat → Nat → Nat → Bool → Option Nat      -- state → role → height → flag → next state
+
+/-- monitor state and height relative to the caller's depth -/
+abbrev AState := Nat × Nat
+abbrev ARes := AState × Outcome
+
+def Monitor.visit (m : Monitor) (a : AState) (s : Nat) (flag : Bool) : Option AState :=
+  match m.role s with
+  | none => some a
+  | some r =>
+    match m.step a.1 r a.2 flag with
+    | none => none
+    | some q => some (q, a.2)
+
+/-- the monitor run over a trace (stored most recent first), heights measured from `base` -/
+def Monitor.run (m : Monitor) (base q0 : Nat) : List Visit → Option Nat
+  | [] => some q0
+  | v :: rest =>
+    match m.run base q0 rest with
+    | none => none
+    | some q =>
+      match m.visit (q, v.2.1 - base) v.1 v.2.2 with
+      | none => none
+      | some a => some a.1
+
+def collect {α β : Type} (f : α → Option (List β)) : List α → Option (List β)
+  | [] => some []
+  | x :: xs =>
+    match f x, collect f xs with
+    | some a, some b => some (a ++ b)
+    | _, _ => none
+
+def isNormal : ARes → Bool
+  | (_, .normal) => true
+  | _ => false
+
+/-- add the normal successors of `S` until nothing new appears (at most `fuel` rounds) -/
+def closeUnder (f : AState → Option (List ARes)) : Nat → List AState → List AState
+  | 0, S => S
+  | n + 1, S =>
+    match collect f S with
+    | none => S
+    | some Rs =>
+      let new := ((Rs.filter isNormal).map (·.1)).filter (fun x => !S.contains x)
+      if new.isEmpty then S else closeUnder f n (S ++ new.eraseDups)
+
+/-- a loop entered in state `a1`: the states closed under "one more normal iteration", verified closed -/
+def loopRes (f : AState → Option (List ARes)) (a1 : AState) : Option (List ARes) :=
+  let S := closeUnder f 64 [a1]
+  match collect f S with
+  | none => none
+  | some Rs =>
+    if Rs.all (fun r => !isNormal r || S.contains r.1) then
+      some (S.map (fun x => (x, Outcome.normal)) ++ Rs.filter (fun r => !isNormal r))
+    else none
+
+def post (m : Monitor) (quiet : Nat → Bool) : Stmt → AState → Option (List ARes)
+  | .skip, a => some [(a, .normal)]
+  | .push, a => some [((a.1, a.2 + 1), .normal)]
+  | .pop, a => if a.2 = 0 then none else some [((a.1, a.2 - 1), .normal)]
+  | .call s, a =>
+    match m.visit a s false with
+    | none => none
+    | some a0 =>
+      if quiet s then some [(a0, .normal)]
+      else
+        match m.visit a s true with
+        | none => none
+        | some a1 => some [(a0, .normal), (a1, .raised)]
+  | .ret, a => some [(a, .returned)]
+  | .raise, a => some [(a, .raised)]
+  | .unknown, _ => none
+  | .seq x y, a =>
+    match post m quiet x a with
+    | none => none
+    | some Rx => collect (fun r => if isNormal r then post m quiet y r.1 else some [r]) Rx
+  | .ite s x y, a =>
+    match m.visit a s true, m.visit a s false with
+    | some at', some af =>
+      match post m quiet x at', post m quiet y af with
+      | some Rx, some Ry => some (Rx ++ Ry)
+      | _, _ => none
+    | _, _ => none
+  | .loop s b, a =>
+    match m.visit a s false, m.visit a s true with
+    | some a0, some a1 =>
+      match loopRes (post m quiet b) a1 with
+      | none => none
+      | some R => some ((a0, .normal) :: R)
+    | _, _ => none
+  | .scope b, a =>
+    match post m quiet b a with
+    | none => none
+    | some R => some (R.map fun r => (r.1, if r.2 = .returned then Outcome.normal else r.2))
+  | .tryFinally b f, a =>
+    match post m quiet b a with
+    | none => none
+    | some Rb =>
+      collect (fun r =>
+        match post m quiet f r.1 with
+        | none => none
+        | some Rf => some (Rf.map fun r2 => (r2.1, if r2.2 = .normal then r.2 else r2.2))) Rb
+  | .tryExcept b h, a =>
+    match post m quiet b a with
+    | none => none
+    | some Rb => collect (fun r => if r.2 = .raised then post m quiet h r.1 else some [r]) Rb
+
 end Pyr.Skel
